@@ -6,14 +6,20 @@
    Proved here (all queues, unbounded): completeness of the DECISION SPACE of the stream and
    singleton hooks -- every demanded schedule is produced by a valid decision string, and for
    NoOrder by exactly one (min_index pruning: no subset lost, no duplicate schedule).
+   Round 2 adds: every per-key combination for the keyed hooks and the keyed singleton; a
+   uniform statement for every modelled hook kind ([hook_spec] / C37_every_hook_schedule);
+   run_hooks reaches every combination of per-hook schedules that is not all-trivial; the
+   scheduler's single choice reaches every ready tick / observation by exactly one value and
+   every order of independent ready ticks by exactly one decision string.
    NOT proved (hence the property is claimed `partial`):
      - that bolero's exhaustive driver enumerates every value of every requested range (an
        external crate; checked per run by comparing outcome SETS with the model's, Sim/Exh.v);
-     - completeness for the keyed hooks / run_hooks combinations / order of ready ticks as
-       theorems (covered only by the per-run outcome-set comparison on tiny configurations
-       against the independently enumerated sets [spec_outcomes], [spec_tick_outcomes]). *)
+     - uniqueness of the decision string (no duplicate schedule) for keyed hooks and
+       run_hooks as a theorem (checked bounded: execution count = number of model runs);
+     - the scheduler model [step_choice] is not tied to LaunchedSim::step by a per-run
+       correspondence other than end-to-end outcome sets. *)
 From Coq Require Import List Arith Bool NArith Permutation.
-From HV Require Import Sim.Model Sim.PHooks Sim.PComplete.
+From HV Require Import Sim.Model Sim.PHooks Sim.PTick Sim.PComplete Sim.PCompleteK Sim.PCompleteTick.
 Import ListNotations.
 Close Scope N_scope.
 
@@ -59,6 +65,89 @@ Proof.
 Qed.
 Print Assumptions C37_single_every_version_partial.
 
+(* keyed hooks: every per-key combination of prefixes / sub-sequences, for every iteration
+   order, also under force provided something is released *)
+Theorem C37_keyed_total_every_combination : forall (A K : Type) (m : list (K * list A)) rel m' force,
+  KeyedSplit PrefixSplit m rel m' -> (force = true -> rel <> [] \/ count_nonempty m = 0) ->
+  exists ds, decide_keyed_total force m ds = Ok (rel, m', [], negb (is_nil rel)).
+Proof.
+  intros A K m rel m' force HS Hf.
+  destruct (keyed_total_complete m rel m' HS force _ eq_refl Hf) as (ds & H).
+  exists ds. unfold decide_keyed_total. rewrite H. reflexivity.
+Qed.
+Print Assumptions C37_keyed_total_every_combination.
+
+Theorem C37_keyed_noorder_every_combination : forall (A K : Type) (m : list (K * list A)) rel m' force,
+  KeyedSplit Merge m rel m' -> (force = true -> rel <> [] \/ count_nonempty m = 0) ->
+  exists ds, decide_keyed_noorder force m ds = Ok (rel, m', [], negb (is_nil rel)).
+Proof.
+  intros A K m rel m' force HS Hf.
+  destruct (keyed_no_complete m rel m' HS force _ eq_refl Hf) as (ds & H).
+  exists ds. unfold decide_keyed_noorder. rewrite H. reflexivity.
+Qed.
+Print Assumptions C37_keyed_noorder_every_combination.
+
+Theorem C37_ksingle_every_combination : forall (A K : Type) keq last (m : list (K * list A)) rel m' force,
+  KSplit keq last m rel m' ->
+  (force = true -> existsb (fun e => snd e) rel = true \/ count_nonempty m = 0) ->
+  exists ds, decide_ksingle keq force m last ds
+             = Ok (rel, m', ks_last keq last rel, [], existsb (fun e => snd e) rel).
+Proof.
+  intros A K keq last m rel m' force HS Hf.
+  exact (ksingle_complete keq last m rel m' HS force _ eq_refl Hf).
+Qed.
+Print Assumptions C37_ksingle_every_combination.
+
+(* uniform: every demanded schedule [hook_spec] of every modelled hook kind *)
+Theorem C37_every_hook_schedule : forall h h' nt,
+  hook_spec h h' nt -> forall force, (force = true -> nt = true) ->
+  exists ds, auto h force ds = Ok (h', nt, []).
+Proof. exact auto_complete. Qed.
+Print Assumptions C37_every_hook_schedule.
+
+(* run_hooks: every combination of per-hook schedules that is not all-trivial (when some hook
+   can decide non-trivially) is produced by some valid decision string, and releases exactly
+   the items of the chosen schedules *)
+Theorem C37_run_hooks_every_combination : forall hs ts,
+  SpecAll hs ts ->
+  (existsb can_nontrivial hs = true -> existsb snd ts = true) ->
+  exists ds hs2 outs, release_all (map fst ts) = Ok (hs2, outs)
+                      /\ run_hooks hs ds = Ok (hs2, outs, []).
+Proof. exact run_hooks_complete. Qed.
+Print Assumptions C37_run_hooks_every_combination.
+
+(* the scheduler (model of LaunchedSim::step's choice): every ready tick and observation is
+   chosen by some value, and by only one *)
+Theorem C37_scheduler_every_choice : forall (T O : Type),
+  (forall (a b : list T) t (obs : list O),
+     step_choice (a ++ t :: b) obs [length a] = Ok (PTick t ((a ++ b) ++ [t]), []))
+  /\ (forall (ticks : list T) (a b : list O) o,
+        step_choice ticks (a ++ o :: b) [length ticks + length a] = Ok (PObs o, []))
+  /\ (forall (ticks : list T) (obs : list O) d1 d2 r1 r2 p,
+        NoDup ticks -> NoDup obs ->
+        step_choice ticks obs (d1 :: r1) = Ok (p, r1) ->
+        step_choice ticks obs (d2 :: r2) = Ok (p, r2) -> d1 = d2).
+Proof.
+  intros T O. split; [|split].
+  - intros. apply step_choice_tick_complete.
+  - intros. apply step_choice_obs_complete.
+  - intros ticks obs d1 d2 r1 r2 p Ht Ho H1 H2. exact (step_choice_unique ticks obs d1 d2 r1 r2 p Ht Ho H1 H2).
+Qed.
+Print Assumptions C37_scheduler_every_choice.
+
+(* every order of independent ready ticks, by exactly one decision string *)
+Theorem C37_scheduler_every_order : forall (T : Type) (l p : list T),
+  Permutation p l ->
+  (exists ds, drain (length l) l ds = Ok (p, []))
+  /\ (NoDup l -> forall d1 d2, drain (length l) l d1 = Ok (p, []) ->
+                               drain (length l) l d2 = Ok (p, []) -> d1 = d2).
+Proof.
+  intros T l p HP. split.
+  - apply drain_every_order; auto.
+  - intros Hnd d1 d2 H1 H2. eapply drain_order_unique; eauto.
+Qed.
+Print Assumptions C37_scheduler_every_order.
+
 (* non-vacuity *)
 Example C37_ex_subset :
   decide_noorder false [10; 20; 30] [0; 0; 0; 1] = Ok ([10; 30], [20], [], true)
@@ -67,4 +156,13 @@ Proof.
   split; [reflexivity|]. split.
   - repeat constructor.
   - repeat constructor; cbn; intuition congruence.
+Qed.
+
+Example C37_ex_run_hooks_combination :
+  SpecAll [HStreamT [10; 20]%N None; HSingle [1; 2]%N None (Some 5%N)]
+          [(HStreamT [20]%N (Some [10]%N), true); (HSingle [1; 2]%N (Some (5%N, false)) (Some 5%N), false)].
+Proof.
+  constructor; [|constructor; [|constructor]].
+  - apply (HS_T [10; 20]%N [10]%N [20]%N). reflexivity.
+  - apply HS_S_old.
 Qed.
